@@ -33,6 +33,10 @@ func c04Ref(fixed []float64) []float64 {
 		}
 		return out
 	}
+	// weights are decimal numbers: 0.7 + 0.2 + 0.1 is 100%, whatever the binary sum says
+	if math.Abs(sum-1) < 1e-9 {
+		sum = 1
+	}
 	for i, f := range fixed {
 		switch {
 		case f > 0 && sum > 1:
